@@ -74,8 +74,8 @@ theorem protoPollT_15 (hpc : PollCompleteFrame) : ∀ (fuel : Nat) (c : Conn), G
       dsimp only
       have k : Keep15 c { c with codec := { c.codec with w := w, io := io } } := Keep15.of_view rfl rfl
       cases r with
-      | pending => dsimp only; exact ⟨Keep15.inv (c := c) ⟨rfl, rfl, rfl⟩ hi, SentOK.quiet rfl (Keep15.gaLe (c := c) ⟨rfl, rfl, rfl⟩)⟩
-      | err e => dsimp only; exact ⟨Keep15.inv (c := c) ⟨rfl, rfl, rfl⟩ hi, SentOK.quiet rfl (Keep15.gaLe (c := c) ⟨rfl, rfl, rfl⟩)⟩
+      | pending => dsimp only; exact ⟨Keep15.inv (c := c) ⟨rfl, rfl, rfl, id⟩ hi, SentOK.quiet rfl (Keep15.gaLe (c := c) ⟨rfl, rfl, rfl, id⟩)⟩
+      | err e => dsimp only; exact ⟨Keep15.inv (c := c) ⟨rfl, rfl, rfl, id⟩ hi, SentOK.quiet rfl (Keep15.gaLe (c := c) ⟨rfl, rfl, rfl, id⟩)⟩
       | ready =>
         dsimp only
         have k' : Keep15 c { c with codec := { c.codec with w := w, io := io }, state := .closed reason init } := Keep15.of_view rfl rfl
@@ -127,15 +127,16 @@ theorem goAwayGracefully_step15 (c : Conn) (hi : GoAwayInv c) : Step15 c c.goAwa
       | none => rfl
       | some ga => simp [GoAway.isGoingAway, h] at hng
     have hmax := hi.none_max hn
-    obtain ⟨d1, -, -, d4, -, -⟩ := dynGoAway_inv c STREAM_ID_MAX NO_ERROR (by rw [← hmax]; exact hi.lpi_le_max)
+    obtain ⟨d1, d2', -, d4, -, -⟩ := dynGoAway_inv c STREAM_ID_MAX NO_ERROR (by rw [← hmax]; exact hi.lpi_le_max)
       (by rw [hmax]; exact Nat.le_refl _) (by intro ga hga; rw [hn] at hga; cases hga)
+    obtain ⟨-, dv, -, -, -⟩ := recvGoAway_ok c.streams STREAM_ID_MAX (by rw [hmax]; exact Nat.le_refl _)
     have hs : Step15 c (c.dynGoAway STREAM_ID_MAX NO_ERROR) :=
-      ⟨d1, by intro m hm; unfold gaLast at hm; rw [hn] at hm; cases hm⟩
+      ⟨d1, (by intro m hm; unfold gaLast at hm; rw [hn] at hm; cases hm), (by intro h; rw [d2', dv]; exact h)⟩
     dsimp only
     refine hs.trans (fun h1 => ?_)
     split
-    · exact Keep15.step (c := c.dynGoAway STREAM_ID_MAX NO_ERROR) ⟨rfl, by simp [Conn.panic], by simp [Conn.panic]⟩ h1
-    · exact Keep15.step (c := c.dynGoAway STREAM_ID_MAX NO_ERROR) ⟨rfl, rfl, rfl⟩ h1
+    · exact Keep15.step (c := c.dynGoAway STREAM_ID_MAX NO_ERROR) ⟨rfl, by simp [Conn.panic], by simp [Conn.panic], by simp [Conn.panic]⟩ h1
+    · exact Keep15.step (c := c.dynGoAway STREAM_ID_MAX NO_ERROR) ⟨rfl, rfl, rfl, id⟩ h1
 
 theorem goAwayFromUser_step15 (c : Conn) (e : Reason) (hi : GoAwayInv c) : Step15 c (c.goAwayFromUser e) := by
   have hok := goAwayNow_ok c e [] true hi
@@ -178,7 +179,8 @@ theorem goAwayFromUser_step15 (c : Conn) (e : Reason) (hi : GoAwayInv c) : Step1
     · intro _
       dsimp only
       rw [r2]; rfl
-  · intro m hm
+  · refine ⟨?_, fun _ => by show (view (c.streams.handleError _).1).connErr.isSome = true; rw [hv]; rfl⟩
+    intro m hm
     refine ⟨c.streams.recv.lastProcessedId, by unfold gaLast; dsimp only; rw [r2]; rfl, ?_⟩
     unfold gaLast at hm
     cases hga : c.goAway.goingAway with
